@@ -42,6 +42,9 @@ pub fn plan(quick: bool) -> Vec<Part> {
         }
         segs.push(Seg::Fixed(fixed));
         v.push(Part::new("C18", "catalogue+long", k, Space { segs }));
+        if k >= 8 {
+            v.push(Part::new("C18", "lifted", k, vcommon::families::lifted(k, !quick)));
+        }
     }
     v
 }
